@@ -87,7 +87,7 @@ def run(ctx):
                             traces = G.make_traces(rnd, func, names, traced, mode, pool)
                             rec = G.run_api(func, traces, members[sname], 0, ns, ct)
                             tt = G.coq_list(G.reify_trace(t, ct) for t in traces)
-                            term = G.case_term(members[sname].value, None, rec["kind"] or sp.fkind, rec["sig"], 0, tt,
+                            term = G.case_term(sname, members[sname].value, None, rec["kind"] or sp.fkind, rec["sig"], 0, tt,
                                                rec["shrunk"], rec["out"], rec["rendered"], rec["env"],
                                                rec["raised"] is not None, False)
                             terms.append(term)
@@ -173,7 +173,7 @@ def run(ctx):
                         else:
                             rendered = "(Some %s)" % G.reify_rendered(node, ns, ct)
                     tt = G.coq_list(G.reify_trace(t, ct) for t in traces)
-                    term = G.case_term(0, (parser, flags), sp.fkind, G.reify_sig(sig0, ct), 0, tt,
+                    term = G.case_term("", 0, (parser, flags), sp.fkind, G.reify_sig(sig0, ct), 0, tt,
                                        "(Some %s)" % G.reify_traced(a, r, y, ct), "None", rendered,
                                        G.string_env(sig0, ns, ct), raised is not None, usage)
                     terms.append(term)
@@ -289,7 +289,7 @@ def replay(ctx, payload):
             strat = {"--ignore-existing-annotations": "IGNORE", "--omit-existing-annotations": "OMIT"}.get(strat, "REPLICATE")
         rec = G.run_api(func, traces, members[strat], 0, ns, ct)
         tt = G.coq_list(G.reify_trace(t, ct) for t in traces)
-        term = G.case_term(members[strat].value, None, rec["kind"] or fkind, rec["sig"], 0, tt, rec["shrunk"],
+        term = G.case_term(strat, members[strat].value, None, rec["kind"] or fkind, rec["sig"], 0, tt, rec["shrunk"],
                            rec["out"], rec["rendered"], rec["env"], rec["raised"] is not None, False)
         outs = common.run_coq_shards(ctx.work, "c13replay", HEADER, [term], "ucase",
                                      "(map verdict_c13 cases, map (fun c => option_map (update_sig (u_strat c) (u_kind c) (u_sig c)) (collect (u_k c) (u_traces c))) cases)")
